@@ -2096,3 +2096,138 @@ Proof.
   destruct (step_restores _ _ _ _ _ _ fixedv_repaired Iw Jw Hs Hr _ _ Bw') as [R1 R2].
   split; [|exact R2]. intros a Ha. apply R1. unfold base_of. apply in_map_iff. exists a. auto.
 Qed.
+
+(* ================================================================== "an upgrade CAN complete" *)
+Definition quiet_apply (T : tarball) (F : faults) : Prop :=
+  f_fail F = [] /\ f_crash F = None /\ f_ha F = true /\ f_ob F = [] /\ f_st F = [] /\ t_hook_ok T = true /\
+  forall a, In a (t_arts T) -> a_mode a <> MBad.
+
+Lemma quiet_apply_cmd T F l : quiet_apply T F -> cmd F l = OGo /\ chk F l = OGo /\ fails F l = false /\ crash_at F l = false.
+Proof. intros (A & B & _). unfold cmd, chk, crash_at, fails. rewrite A, B. auto. Qed.
+
+Lemma snap_loop_succeeds v f arts : forall bak,
+  (forall a, In a arts -> f (a_path a) <> Some Dir) -> exists b es, snap_loop v f bak arts = (b, Some es).
+Proof.
+  induction arts as [|a r IH]; simpl; intros bak H; [eauto|].
+  assert (Hr : forall a0, In a0 r -> f (a_path a0) <> Some Dir) by (intros; apply H; now right).
+  destruct (f (a_path a)) as [[c m|t|]|] eqn:Ef.
+  - destruct (IH (upd bak (a_path a) (Some c)) Hr) as (b & es & ->). simpl. eauto.
+  - destruct (IH bak Hr) as (b & es & ->). simpl. eauto.
+  - exfalso. apply (H a (or_introl eq_refl)). exact Ef.
+  - destruct (IH bak Hr) as (b & es & ->). simpl. eauto.
+Qed.
+
+Lemma swap_loop_succeeds arts : forall w,
+  cfg_stage_fix w = true -> (forall p, obst w p = None) ->
+  (forall a, In a arts -> fs w (a_path a) <> Some Dir /\ a_mode a <> MBad) ->
+  exists w', swap_loop w arts = (w', true).
+Proof.
+  induction arts as [|a r IH]; simpl; intros w Hc Hob H; [eauto|].
+  destruct (H a (or_introl eq_refl)) as [Hd Hm].
+  cbv zeta. unfold swap_artifact. rewrite obst_set_phase, Hob.
+  assert (Sm : exists mm, staged_mode (set_phase w (PSwapping (a_path a))) (a_path a) (a_mode a) = Some mm).
+  { unfold staged_mode. rewrite cfg_set_phase, Hc. destruct (a_mode a); simpl; eauto. congruence. }
+  destruct Sm as [mm ->]. rewrite !(fs_set_phase w (PSwapping (a_path a))).
+  assert (Hnext : forall wx, cfg_stage_fix wx = true -> obst wx = obst w ->
+            fs wx = upd (fs w) (a_path a) (Some (Reg (a_content a) mm)) -> exists w', swap_loop wx r = (w', true)).
+  { intros wx C O Fx. apply IH; [assumption|intros; now rewrite O|].
+    intros a0 Ha0. destruct (H a0 (or_intror Ha0)) as [D0 M0]. split; [|assumption].
+    rewrite Fx. unfold upd. destruct (N.eqb (a_path a0) (a_path a)); [discriminate|assumption]. }
+  destruct (fs w (a_path a)) as [[| |]|] eqn:Ef; try (exfalso; now apply Hd);
+    (apply Hnext; [rewrite cfg_set_phase; simpl; rewrite ?cfg_set_phase; assumption
+                  |rewrite obst_set_phase; simpl; rewrite ?obst_set_phase; reflexivity
+                  |rewrite fs_set_phase; simpl; rewrite ?fs_set_phase; reflexivity]).
+Qed.
+
+Lemma after_snapshot_quiet v T F from w2 :
+  quiet_apply T F -> cfg_stage_fix w2 = true -> (forall p, obst w2 p = None) ->
+  (forall a, In a (t_arts T) -> fs w2 (a_path a) <> Some Dir) ->
+  exists w', after_snapshot v T F from w2 = (w', ROk).
+Proof.
+  intros Hq Hc Hob Hd. pose proof Hq as (_ & _ & Hha & Hfob & Hfst & Hhook & Hmode).
+  assert (Q : forall l, cmd F l = OGo /\ chk F l = OGo /\ fails F l = false /\ crash_at F l = false)
+    by (intros; now apply (quiet_apply_cmd T)).
+  unfold after_snapshot. destruct (Q 26%N) as (_ & _ & _ & ->). rewrite Hhook. simpl.
+  assert (S1 : seq_oc [chk F 27; cmd F 1]%N = OGo).
+  { unfold seq_oc. destruct (Q 27%N) as (_ & -> & _). destruct (Q 1%N) as (-> & _). reflexivity. }
+  assert (S2 : seq_oc [chk F 28; cmd F 2]%N = OGo).
+  { unfold seq_oc. destruct (Q 28%N) as (_ & -> & _). destruct (Q 2%N) as (-> & _). reflexivity. }
+  rewrite S1, S2. destruct (Q 29%N) as (_ & _ & _ & ->). rewrite Hfob, Hfst. simpl.
+  set (w5 := set_phase (set_phase (set_phase w2 PPreHookDone) PRestartSuspended) PDaemonStopped).
+  destruct (swap_loop_succeeds (t_arts T) (with_obs w5 [])) as [w7 Hsw].
+  - unfold with_obs. simpl. unfold w5. now rewrite !cfg_set_phase.
+  - intros p. unfold with_obs, install_ob. simpl. unfold w5. rewrite !obst_set_phase. apply Hob.
+  - intros a Ha. split; [|now apply Hmode]. unfold with_obs. simpl. unfold w5. rewrite !fs_set_phase. now apply Hd.
+  - rewrite Hsw. simpl. unfold post_swap.
+    assert (Sv : (if needs_vpp (t_arts T) then vpp_seq F 0 else OGo) = OGo).
+    { destruct (needs_vpp (t_arts T)); [|reflexivity]. unfold vpp_seq, seq_oc.
+      destruct (Q (0 + 3)%N) as (-> & _). destruct (Q (0 + 4)%N) as (-> & _). destruct (Q (0 + 5)%N) as (-> & _).
+      destruct (Q (0 + 6)%N) as (_ & _ & -> & _). destruct (Q (0 + 7)%N) as (-> & _). reflexivity. }
+    rewrite Sv.
+    assert (S3 : seq_oc [chk F 30; cmd F 8]%N = OGo).
+    { unfold seq_oc. destruct (Q 30%N) as (_ & -> & _). destruct (Q 8%N) as (-> & _). reflexivity. }
+    rewrite S3. destruct (Q 31%N) as (_ & _ & _ & ->). rewrite Hha. simpl.
+    destruct (Q 32%N) as (_ & _ & _ & ->). destruct (Q 35%N) as (_ & _ & _ & ->).
+    destruct (Q 33%N) as (_ & _ & _ & ->). destruct (Q 34%N) as (_ & _ & _ & ->). eauto.
+Qed.
+
+Lemma fresh_flow_quiet T F w :
+  quiet_apply T F -> cfg_stage_fix w = true -> (forall p, obst w p = None) ->
+  (forall a, In a (t_arts T) -> fs w (a_path a) <> Some Dir) ->
+  exists w', fresh_flow repaired T F w = (w', ROk).
+Proof.
+  intros Hq Hc Hob Hd.
+  assert (Q0 : forall l, cmd F l = OGo /\ chk F l = OGo /\ fails F l = false /\ crash_at F l = false)
+    by (intros; now apply (quiet_apply_cmd T)).
+  unfold fresh_flow. destruct (Q0 25%N) as (_ & _ & _ & ->). destruct (Q0 36%N) as (_ & _ & -> & _). simpl.
+  set (w0 := if negb (resume w) then _ else _).
+  assert (P0 : fs w0 = fs w /\ obst w0 = obst w /\ cfg_stage_fix w0 = true /\ cur w0 = cur w).
+  { unfold w0. destruct (negb (resume w)); simpl; auto. }
+  destruct P0 as (F0 & O0 & C0 & U0).
+  unfold do_snapshot.
+  destruct (snap_loop_succeeds repaired (fs w0)
+              (t_arts T) (s_bak match snaps w0 (cur w) with Some d => d | None => empty_snap end)) as (b & es & ->).
+  { intros a Ha. rewrite F0. now apply Hd. }
+  simpl.
+  match goal with |- exists w', after_snapshot _ _ _ _ ?x = _ => apply (after_snapshot_quiet repaired T F (cur w) x Hq) end.
+  - rewrite cfg_set_phase. destruct (negb (resume w)); simpl; exact C0.
+  - intros p. rewrite obst_set_phase. destruct (negb (resume w)); simpl; rewrite <- ?O0 in Hob; rewrite ?O0; apply Hob.
+  - intros a Ha. rewrite fs_set_phase. destruct (negb (resume w)); simpl; rewrite ?F0; now apply Hd.
+Qed.
+
+(* Without faults, without obstacles and with no directory on its paths, an apply from a reachable state either
+   completes and reports success, or refuses and leaves the world exactly as it was (inadmissible tarball; apply over
+   an interrupted upgrade without ForceRetry or with a different artifact set).  It never stops half-way. *)
+Lemma apply_quiet c f ops T Q F :
+  let w := exec repaired (init_world c f) ops in
+  quiet_apply T F -> (forall p, obst w p = None) ->
+  (forall a, In a (t_arts T) -> fs w (a_path a) <> Some Dir) ->
+  (exists w', apply repaired T Q F w = (w', ROk)) \/ apply repaired T Q F w = (w, RErr).
+Proof.
+  intros w Hq Hob Hd. destruct (reachable_IJ c f ops) as [[Hi Hc] _]. fold w in Hi, Hc.
+  pose proof Hq as (_ & _ & _ & _ & _ & _ & _).
+  assert (Q0 : forall l, cmd F l = OGo /\ chk F l = OGo /\ fails F l = false /\ crash_at F l = false)
+    by (intros; now apply (quiet_apply_cmd T)).
+  unfold apply. destruct (admits T Q w); [|now right].
+  assert (Hfresh : exists w', fresh_flow repaired T F w = (w', ROk)) by (now apply fresh_flow_quiet).
+  unfold apply_flow. simpl. destruct (resume w) eqn:Hr; [|now left].
+  destruct (jr w) as [j|]; [|now left]. destruct (snaps w (j_from j)) as [d|]; [|now left].
+  destruct (s_meta d) as [[nv es]|]; [|now left].
+  destruct (covered es (t_arts T) && _); [|now right].
+  left. unfold keep_flow. destruct (Q0 25%N) as (_ & _ & _ & ->).
+  match goal with |- exists w', after_snapshot _ _ _ _ ?x = _ => apply (after_snapshot_quiet repaired T F (j_from j) x Hq) end.
+  - rewrite cfg_set_phase. exact Hc.
+  - intros p. rewrite obst_set_phase. apply Hob.
+  - intros a Ha. rewrite fs_set_phase. now apply Hd.
+Qed.
+
+Lemma fresh_apply_completes c f ops T Q F :
+  let w := exec repaired (init_world c f) ops in
+  quiet_apply T F -> (forall p, obst w p = None) ->
+  (forall a, In a (t_arts T) -> fs w (a_path a) <> Some Dir) ->
+  admits T Q w = true -> resume w = false ->
+  exists w', apply repaired T Q F w = (w', ROk).
+Proof.
+  intros w Hq Hob Hd Ha Hr. destruct (reachable_IJ c f ops) as [[_ Hc] _]. fold w in Hc.
+  unfold apply. rewrite Ha. unfold apply_flow. simpl. rewrite Hr. now apply fresh_flow_quiet.
+Qed.
